@@ -682,7 +682,7 @@ def c20(pid, tier, seed, workdir):
         "evaluations": total_runs + r["lines"], "distinct_nontrivial": total_runs,
         "rule": "S: PList.tla, all programs of append/clone/tail/drop over <= 7 nodes and <= 3 handles under both drop disciplines (loop: stack depth <= 1 proved "
                 "for the model; glue: violates any bound, as expected). Binding by observation: capture-free games of n turns (ladder %s) played through the public API "
-                "in child processes on a 2 MiB thread, final state cloned, queried and dropped; minimal surviving stack bisected at n=2000 and n=32000; in two build "
+                "in child processes on a 2 MiB thread, final state cloned, queried (at step 0 and, on a clone walked through one more turn, at steps 1, 2 and 3) and dropped; minimal surviving stack bisected at n=2000 and n=32000; in two build "
                 "profiles; DropTrace.tla accepts iff all runs survive and the minimal stack does not grow with n. First 3000 turns also trace-validated (PROP=ALL). "
                 "Non-trivial = every ladder run (history far beyond any recursion the stack could hold)" % ladder,
         "samples": samples, "ladder": per, "exhaustive": False,
